@@ -5,7 +5,7 @@ from vmon import planaudit
 
 LEVEL = "exploration"
 MANIFEST = {
-    "text": "Declared-vs-computed audit (M-plan) of every collection a user can hold: for every value L of seeded random programs and of ~50 targeted queries over the division-deriving operators (partition-filtered sources, fused multi-file reads, set_index/sort outputs, index joins, concat, loc, shifted/renamed indexes, head/tail, every repartition kind, parquet/csv/array sources), and every optimizer stage S, the root of optimize_until(L, S) is computed on the real code and its partitions are compared with the reported npartitions / divisions (count, sortedness, per-partition containment with closed last bound). len / Lengths / size answered from metadata are compared with the computed row counts, recording whether the plan became a Literal.",
+    "text": "Declared-vs-computed audit (M-plan) of every collection a user can hold: for every value L of seeded random programs and of ~50 targeted queries over the division-deriving operators (partition-filtered sources, fused multi-file reads, set_index/sort outputs, index joins, concat, loc, shifted/renamed indexes, head/tail, every repartition kind, parquet/csv/array sources), and every optimizer stage S, the root of optimize_until(L, S) is computed on the real code and its partitions are compared with the reported npartitions / divisions (count, sortedness, per-partition containment with closed last bound). len / Lengths / size answered from metadata are compared with the computed row counts, recording whether the plan became a Literal. ~170 targeted collections incl. the keyword surface of the front end are audited at every stage; row counts from metadata are compared per partition.",
     "note": "Only user-holdable collections (roots of optimize_until(L, S)) are audited; private physical intermediates inherit placeholder divisions by design. User-asserted divisions in the workload are truthful. Division comparisons raising TypeError are counted, not judged.",
     "technique": "runtime monitoring: M-plan declared-vs-computed structure audit at every plan stage + metadata-count oracle",
     "design_ref": "DESIGN.md section 4, C06",
